@@ -32,8 +32,15 @@ package postprocess
 //@     invariant fresh(pruned)
 //@     invariant forall id :: has(pruned, id) ==> has(hasGroup, id) && has(response.DeferDescriptors, id) && pruned[id].ID == response.DeferDescriptors[id].ID && (pruned[id].ParentID == 0 || has(hasGroup, pruned[id].ParentID))
 
+//@ func buildDeferTree.Process$1
+//@   assumes {defer.ids.are.non.negative.counters.so.the.difference.does.not.wrap} a != nil && b != nil && a.DeferID >= 0 && b.DeferID >= 0
+//@   ensures {siblings.are.ordered.by.defer.id} result == a.DeferID - b.DeferID
+//@   pure
+
 //@ func buildDeferTree.Process
 //@   requires response != nil && b != nil
+//@   at call slices.SortFunc: assert {the.sibling.list.of.this.parent.is.sorted} arr(arg0) == arr(childrenOf[k]) && len(arg0) == len(childrenOf[k])
+//@   at call buildDeferTree.buildChain: assert {every.sibling.list.was.sorted.before.a.tree.node.is.built} forall q :: has(childrenOf, q) ==> visited(0, q)
 //@   ensures {every.announced.defer.is.scheduled} !old(b.disable) && old(len(response.Defers)) > 0 ==> (forall id :: has(response.DeferDescriptors, id) ==> ownsGroup(response, id))
 //@   modifies *
 //@   loop 0:
@@ -126,3 +133,75 @@ package postprocess
 //@     invariant forall i in 0..len(components) :: sortedInts(components[i])
 //@     invariant forall i in 0..len(components) :: allocated(components[i]) && (len(components[i]) > 0 ==> arr(components[i]) != arr(component) && arr(components[i]) != arr(queue))
 //@     invariant allocated(component) && allocated(queue)
+
+// the children of a Parallel node are put into the canonical order (by the smallest fetch id they reach) before the
+// node is built; a Sequence keeps the order it was given (that order is a dependency order)
+//@ func combineOf
+//@   ghost var g_sorted bool = false
+//@   ghost var g_arr int = 0
+//@   at call slices.SortFunc: assert {the.list.that.becomes.the.node.is.the.one.sorted} kind == resolve.FetchTreeNodeKindParallel
+//@   at call slices.SortFunc: ghost g_arr = arr(arg0)
+//@   at call slices.SortFunc: ghost g_sorted = true
+//@   at call resolve.Parallel: assert {parallel.children.are.in.canonical.order.when.the.node.is.built} g_sorted && arr(arg0) == g_arr
+//@   at call resolve.Sequence: assert {a.sequence.keeps.its.order} !g_sorted
+//@   modifies *
+//@   loop 0:
+//@     invariant !g_sorted
+
+// the order is: smallest reachable fetch id first
+//@ func combineOf$1
+//@   ghost var g_n int = 0
+//@   ghost var g_ma int = 0
+//@   ghost var g_mb int = 0
+//@   at call minReachableFetchID: assert {the.key.of.a.then.the.key.of.b} (g_n == 0 ==> arg0 == a) && (g_n == 1 ==> arg0 == b) && g_n < 2
+//@   at call minReachableFetchID: ghost g_ma = ite(g_n == 0, result, g_ma)
+//@   at call minReachableFetchID: ghost g_mb = ite(g_n == 1, result, g_mb)
+//@   at call minReachableFetchID: ghost g_n = g_n + 1
+//@   at call cmp.Compare: assert {children.are.ordered.by.their.smallest.reachable.fetch.id} g_n == 2 && arg0 == g_ma && arg1 == g_mb
+//@   ghost var g_c int = 0
+//@   at call cmp.Compare: ghost g_c = result
+//@   ensures {the.comparison.is.returned.as.it.is} result == g_c
+//@   modifies *
+
+// the fetch groups of the defers are collected in a map keyed by defer id; they are appended to the response in
+// ascending id order, never in map order
+//@ func extractDeferFetches.fetchGroups
+//@   requires d != nil && deferPlan != nil && deferPlan.Response != nil && deferPlan.Response.Response != nil && deferPlan.Response.Response.Fetches != nil
+//@   ensures {the.groups.are.collected.in.a.new.map} fresh(result1)
+//@   modifies *
+//@   ensures deferPlan.Response == old(deferPlan.Response) && deferPlan.Response.Response == old(deferPlan.Response.Response) && len(deferPlan.Response.Defers) == old(len(deferPlan.Response.Defers)) && d.disable == old(d.disable)
+//@   safety no-bounds
+//@   loop 0:
+//@     invariant fresh(fetchGroups) && deferPlan.Response == old(deferPlan.Response) && deferPlan.Response.Response == old(deferPlan.Response.Response) && len(deferPlan.Response.Defers) == old(len(deferPlan.Response.Defers)) && d.disable == old(d.disable)
+
+//@ func extractDeferFetches.Process
+//@   requires d != nil && deferPlan != nil && deferPlan.Response != nil && deferPlan.Response.Response != nil && deferPlan.Response.Response.Fetches != nil
+//@   ghost var g_keys int = 0
+//@   ghost var g_sorted bool = false
+//@   ghost var g_map int = 0
+//@   ghost var g_before int = 0
+//@   at call extractDeferFetches.fetchGroups: ghost g_map = result1
+//@   at call maps.Keys: assert {the.ids.come.from.the.collected.groups} arg0 == g_map
+//@   at call maps.Keys: ghost g_keys = result
+//@   at call slices.Sorted: assert {the.ids.are.sorted.before.the.groups.are.appended} arg0 == g_keys
+//@   at call slices.Sorted: ghost g_sorted = true
+//@   at call slices.Sorted: ghost g_before = len(deferPlan.Response.Defers)
+//@   ensures {groups.are.appended.in.ascending.id.order} !old(d.disable) ==> g_sorted && g_before <= len(deferPlan.Response.Defers) && (forall a in g_before..len(deferPlan.Response.Defers) :: forall b in g_before..len(deferPlan.Response.Defers) :: a < b ==> deferPlan.Response.Defers[a].DeferID <= deferPlan.Response.Defers[b].DeferID)
+//@   modifies *
+//@   loop 0:
+//@     invariant g_sorted && deferPlan.Response != nil && g_before <= len(deferPlan.Response.Defers) && g_before >= 0
+//@     invariant sortedInts(deferIds)
+//@     invariant forall a in g_before..len(deferPlan.Response.Defers) :: allocated(deferPlan.Response.Defers[a]) && deferPlan.Response.Defers[a] != nil
+//@     invariant forall a in g_before..len(deferPlan.Response.Defers) :: forall b in g_before..len(deferPlan.Response.Defers) :: a < b ==> deferPlan.Response.Defers[a].DeferID <= deferPlan.Response.Defers[b].DeferID
+//@     invariant forall a in g_before..len(deferPlan.Response.Defers) :: forall j in 0..len(deferIds) :: j > phi0 ==> deferPlan.Response.Defers[a].DeferID <= deferIds[j]
+
+// duplicates are removed from the merged type-name scope by Compact, which only removes neighbours: the list is sorted
+// first (this also makes the scope independent of the order in which the fetches were merged)
+//@ func deduplicateSingleFetches.mergeTypeNames
+//@   ghost var g_sorted bool = false
+//@   ghost var g_arr int = 0
+//@   at call slices.Sort: ghost g_sorted = true
+//@   at call slices.Sort: ghost g_arr = arr(arg0)
+//@   at call slices.Compact: assert {the.merged.scope.is.sorted.before.neighbouring.duplicates.are.removed} g_sorted && arr(arg0) == g_arr
+//@   ensures {an.unscoped.side.makes.the.merged.fetch.unscoped} len(left) == 0 || len(right) == 0 ==> len(result) == 0
+//@   modifies *
